@@ -34,7 +34,8 @@ pub struct Case {
 	/// how the TCP listener is named on the command line: "" = 127.0.0.1 | "[::1]" | "localhost"
 	#[serde(default)]
 	pub tcp_host: String,
-	/// layout of a value file (--domain-file / --acme-ext-file): 0 "V\n" | 1 "V" | 2 " V \n" | 3 "\nV\n" | 4 "\n\n\tV\n\n" | 5 "V\r\n"
+	/// layout of a value file (--domain-file / --acme-ext-file): 0 "V\n" | 1 "V" | 2 " V \n" | 3 "\nV\n" | 4 "\n\n\tV\n\n" | 5 "V\r\n" |
+	/// 6: not a regular file but a named pipe fed by another process (what `--acme-ext-file <(command)` gives): size 0, yet readable
 	#[serde(default)]
 	pub file_shape: u8,
 }
@@ -88,7 +89,7 @@ pub fn strategy() -> impl Strategy<Value = Case> {
 		proptest::sample::select(vec!["flag", "file", "stdin"]),
 		proptest::collection::vec(offer(), 2..5),
 		any::<bool>(),
-		(any::<bool>(), prop_oneof![5 => Just(0u64), 1 => Just(50u64), 1 => Just(250u64), 1 => Just(1100u64)], prop_oneof![3 => Just(""), 2 => Just("[::1]"), 1 => Just("localhost")], 0u8..6),
+		(any::<bool>(), prop_oneof![5 => Just(0u64), 1 => Just(50u64), 1 => Just(250u64), 1 => Just(1100u64)], prop_oneof![3 => Just(""), 2 => Just("[::1]"), 1 => Just("localhost")], 0u8..7),
 	)
 		.prop_map(|((domain_cfg, domain_expected), digest, key_type, cert_digest, unix, dv, ev, offers, upper_hex, (client_max12, client_delay_ms, tcp_host, file_shape))| Case {
 			file_shape,
@@ -181,6 +182,35 @@ pub fn start_tacd_limited(tacd: &Path, dir: &Path, case_domain: &str, ext: &str,
 	Err(format!("harness could not find a free port: {last}"))
 }
 
+/// writes a value file in the layout of this thread's case; layout 6 makes a named pipe and feeds it from a thread
+fn write_value_file(p: &Path, v: &str) -> Result<(), String> {
+	if FILE_SHAPE.with(|s| s.get()) != 6 {
+		return std::fs::write(p, shaped(v)).map_err(|e| e.to_string());
+	}
+	let _ = std::fs::remove_file(p);
+	let c = std::ffi::CString::new(p.display().to_string()).map_err(|e| e.to_string())?;
+	if unsafe { libc::mkfifo(c.as_ptr(), 0o600) } != 0 {
+		return Err(format!("mkfifo {}: {}", p.display(), std::io::Error::last_os_error()));
+	}
+	let (path, text) = (p.to_path_buf(), format!("{v}\n"));
+	std::thread::spawn(move || {
+		// the writer waits (at most 30 s) for tacd to open the pipe for reading
+		use std::os::unix::fs::OpenOptionsExt;
+		let t0 = Instant::now();
+		while t0.elapsed() < Duration::from_secs(30) {
+			match std::fs::OpenOptions::new().write(true).custom_flags(libc::O_NONBLOCK).open(&path) {
+				Ok(mut f) => {
+					use std::io::Write;
+					let _ = f.write_all(text.as_bytes());
+					return;
+				}
+				Err(_) => std::thread::sleep(Duration::from_millis(5)),
+			}
+		}
+	});
+	Ok(())
+}
+
 /// a value as an administrator's editor or script may have left it in a file: the value is what remains after trimming
 fn shaped(v: &str) -> String {
 	match FILE_SHAPE.with(|s| s.get()) {
@@ -214,7 +244,7 @@ fn start_tacd_once(tacd: &Path, dir: &Path, case_domain: &str, ext: &str, domain
 		}
 		"file" => {
 			let p = dir.join("domain.txt");
-			std::fs::write(&p, shaped(case_domain)).map_err(|e| e.to_string())?;
+			write_value_file(&p, case_domain)?;
 			args.push("--domain-file".into());
 			args.push(p.display().to_string());
 		}
@@ -227,7 +257,7 @@ fn start_tacd_once(tacd: &Path, dir: &Path, case_domain: &str, ext: &str, domain
 		}
 		"file" => {
 			let p = dir.join("ext.txt");
-			std::fs::write(&p, shaped(ext)).map_err(|e| e.to_string())?;
+			write_value_file(&p, ext)?;
 			args.push("--acme-ext-file".into());
 			args.push(p.display().to_string());
 		}
@@ -339,7 +369,7 @@ pub fn exec(case: &Case) -> Outcome {
 }
 
 pub fn run(ctx: &Ctx, rep: &mut Report) {
-	rep.rule = "case = tacd (release build, as shipped) started with a random domain (ASCII / IDN / mixed case / reverse-DNS name / names of 65..200 octets with labels up to 63), a random 32-byte digest rendered as the daemon's acmeIdentifier text (upper or lower hex), key type (7 or default) x digest (3 or default), TCP listener given as 127.0.0.1:port, [::1]:port or localhost:port, or unix-socket listener; client offering every TLS version or TLS 1.2 at most, sending its flights at once or 50 / 250 / 1100 ms late; domain and extension each passed by flag, file (six layouts: with or without final line end, surrounded by blanks, after blank lines, CRLF) or standard input; 2..4 client ALPN lists tried in turn (only acme-tls/1; acme-tls/1 among others at any position; only foreign protocols incl. near-misses). Oracle (OpenSSL client of the harness + own DER walker): offering acme-tls/1 => handshake succeeds, acme-tls/1 negotiated, peer certificate has exactly one SAN = A-label dNSName (own punycode), critical acmeIdentifier = OCTET STRING of the digest, self-signed and verifying under its own key, currently valid, requested key type and digest; offering only other protocols => handshake fails. Non-trivial = one server answered at least one acme-tls/1 offer correctly AND refused at least one foreign offer.".into();
+	rep.rule = "case = tacd (release build, as shipped) started with a random domain (ASCII / IDN / mixed case / reverse-DNS name / names of 65..200 octets with labels up to 63), a random 32-byte digest rendered as the daemon's acmeIdentifier text (upper or lower hex), key type (7 or default) x digest (3 or default), TCP listener given as 127.0.0.1:port, [::1]:port or localhost:port, or unix-socket listener; client offering every TLS version or TLS 1.2 at most, sending its flights at once or 50 / 250 / 1100 ms late; domain and extension each passed by flag, file (seven layouts: with or without final line end, surrounded by blanks, after blank lines, CRLF, or a named pipe fed by another process) or standard input; 2..4 client ALPN lists tried in turn (only acme-tls/1; acme-tls/1 among others at any position; only foreign protocols incl. near-misses). Oracle (OpenSSL client of the harness + own DER walker): offering acme-tls/1 => handshake succeeds, acme-tls/1 negotiated, peer certificate has exactly one SAN = A-label dNSName (own punycode), critical acmeIdentifier = OCTET STRING of the digest, self-signed and verifying under its own key, currently valid, requested key type and digest; offering only other protocols => handshake fails. Non-trivial = one server answered at least one acme-tls/1 offer correctly AND refused at least one foreign offer.".into();
 	run_replays::<Case>(ctx, rep, "bb", &exec);
 	if ctx.replay.is_some() {
 		return;
